@@ -181,6 +181,7 @@ type World struct {
 	seq     int
 	Budget  [NumBudgets]int
 	Blocked [][]bool
+	HoldFrom []bool // per node id: outgoing messages are born delayed
 	PropSeq int
 	ReadSeq int
 	PC      int // script position
@@ -213,6 +214,7 @@ const (
 // NewWorld builds the initial world of a scenario.
 func NewWorld(sc *Scenario, mons []Monitor) *World {
 	w := &World{Sc: sc, Budget: sc.Budget, Mons: mons, Counters: map[string]int{}}
+	w.HoldFrom = make([]bool, sc.N+1)
 	w.Blocked = make([][]bool, sc.N+1)
 	for i := range w.Blocked {
 		w.Blocked[i] = make([]bool, sc.N+1)
@@ -396,7 +398,7 @@ func (w *World) release(rec *StepRec, m *pb.Message) {
 	}
 	rec.Released = append(rec.Released, cp)
 	w.seq++
-	nm := NetMsg{Enc: string(b), M: cp, Seq: w.seq}
+	nm := NetMsg{Enc: string(b), M: cp, Seq: w.seq, Delayed: (w.Sc.SlowSnap && m.GetType() == pb.MsgSnap) || w.HoldFrom[from]}
 	// insert sorted by (Enc, Seq)
 	k := sort.Search(len(w.Net), func(i int) bool { return w.Net[i].Enc > nm.Enc })
 	w.Net = append(w.Net, NetMsg{})
@@ -709,7 +711,7 @@ func (w *World) Apply(ev Event) (rec *StepRec) {
 	rec = &StepRec{Ev: ev, Node: -1}
 	w.Steps++
 	var n *Node
-	if ev.Node > 0 && int(ev.Node) <= len(w.Nodes) && ev.Kind != EvHeal {
+	if ev.Node > 0 && int(ev.Node) <= len(w.Nodes) && ev.Kind != EvHeal && ev.Kind != EvHoldFrom && ev.Kind != EvFlush {
 		n = w.own(int(ev.Node - 1))
 		rec.Node = int(ev.Node - 1)
 	}
@@ -955,6 +957,15 @@ func (w *World) exec(ev Event, n *Node, rec *StepRec) {
 				w.Blocked[i][j] = false
 			}
 		}
+		for i := range w.HoldFrom {
+			w.HoldFrom[i] = false
+		}
+	case EvHoldFrom:
+		w.HoldFrom[ev.Node] = true
+	case EvFlush:
+		for k := range w.Net {
+			w.Net[k].Delayed = false
+		}
 	case EvStop:
 		n.Stopped = true
 	case EvPauseApply:
@@ -1021,6 +1032,7 @@ func (w *World) Clone() *World {
 		c.Counters[k] = v
 	}
 	c.Net = append([]NetMsg(nil), w.Net...)
+	c.HoldFrom = append([]bool(nil), w.HoldFrom...)
 	c.Blocked = make([][]bool, len(w.Blocked))
 	for i := range w.Blocked {
 		c.Blocked[i] = append([]bool(nil), w.Blocked[i]...)
